@@ -1,6 +1,7 @@
 import Props.C15
 import Props.C16
 import Props.C17
+import PyrefactModel.C16.Norm
 /-!
 # C02 — every individual rewrite rule preserves behaviour: the rules whose decision cores are modelled
 
@@ -45,9 +46,63 @@ theorem constrained_range_sound (β : Nat → Int → Bool) (start stop : Int) (
         (C17.intRange start stop).filter (fun x => cs.all (fun c => c.holds β x)) :=
   C17.rangeFold_sound β start stop cs
 
+/-! ## control-flow rules: a proved validator
+
+`C16.Equiv l l'`: under every oracle (= every valuation of the unknown tests and every iteration count) and from every
+state, `l` terminates with outcome `o`, having consumed `p` oracle bits and produced the trace `t` of executed
+statements and evaluated tests, iff `l'` does.  The real rules are run on labelled skeleton programs and every rewrite
+they make is checked by `C16.validate` (suite `flow-validate`). -/
+
+/-- **validated rewrites preserve behaviour** -/
+theorem flow_rewrite_sound (l l' : List C16.Stmt) (h : C16.validate l l' = true) : C16.Equiv l l' :=
+  C16.validate_sound l l' h
+
+/-- `remove_redundant_else`, and moving common trailing code out of an if/else (`breakout_common_code_in_ifs`), in one
+statement: the continuation of an `if` may be moved into both branches or out of them -/
+theorem if_continuation_sound (c : C16.Cond) (a b k : List C16.Stmt) :
+    C16.Equiv (.ite c a b :: k) [.ite c (a ++ k) (b ++ k)] := C16.sink c a b k
+
+/-- `swap_if_else` -/
+theorem swap_if_else_sound (id : Nat) (a b : List C16.Stmt) :
+    C16.EquivS (.ite (.unk id true) a b) (.ite (.unk id false) b a) := C16.swapNeg id a b
+
+/-- `remove_dead_ifs` -/
+theorem dead_if_sound (a b k : List C16.Stmt) :
+    C16.Equiv (.ite .tt a b :: k) (a ++ k) ∧ C16.Equiv (.ite .ff a b :: k) (b ++ k) ∧ C16.Equiv (.whileS .ff a :: k) k :=
+  ⟨C16.ite_tt a b k, C16.ite_ff a b k, C16.while_ff_drop a k⟩
+
+/-- `delete_unreachable_code`, now including the trace: whatever follows a statement that `is_blocking` reports may go -/
+theorem unreachable_drop_sound (st : C16.Stmt) (hb : C16.blocks .none st = true) (k : List C16.Stmt) :
+    C16.Equiv (st :: k) [st] := C16.blocking_drop st hb k
+
+/-- `early_continue` (and its inverse): a `continue` that ends a loop body is the same as falling off the end, for
+every kind of loop -/
+theorem trailing_continue_sound (b : List C16.Stmt) (c : C16.Cond) (it : C16.Iter) :
+    C16.EquivS (.whileS c b) (.whileS c (C16.stripL b)) ∧ C16.EquivS (.forS it b) (.forS it (C16.stripL b)) :=
+  ⟨C16.EquivS.whileS c (C16.stripL_loopEquiv b), C16.EquivS.forS it (C16.stripL_loopEquiv b)⟩
+
+/-- equivalence is not trivial: swapping two statements is not validated, and is not an equivalence -/
+theorem reorder_not_equiv : ¬ C16.Equiv [.simple 1, .simple 2] [.simple 2, .simple 1] := by
+  intro h
+  have h1 : C16.Res (fun _ => false) [.simple 1, .simple 2] ⟨0, []⟩ (.normal, ⟨0, [.stmt 2, .stmt 1]⟩) :=
+    ⟨3, by simp [C16.execList, C16.exec], by simp⟩
+  obtain ⟨n, hn, _⟩ := (h _ _ _).1 h1
+  match n with
+  | 0 => simp [C16.execList] at hn
+  | 1 => simp [C16.execList, C16.exec] at hn
+  | 2 => simp [C16.execList, C16.exec] at hn
+  | n + 3 => simp [C16.execList, C16.exec] at hn
+
+/-- early-continue in a loop, as the real rule writes it, is validated -/
+example : C16.validate
+    [.forS .unk [.simple 1, .ite (.unk 1 false) [.simple 2, .simple 3] []]]
+    [.forS .unk [.simple 1, .ite (.unk 1 true) [.cont] [], .simple 2, .simple 3]] = true := by
+  simp [C16.validate, C16.normL, C16.normS, C16.stripL, C16.stripLast, C16.beqL, C16.beqS, C16.blocksL, C16.blocks, C16.hasJmp, C16.hasJmpL, C16.firstIter]
+
 /-- rules with a theorem above (names as in the pipeline table); everything else: sweep only -/
 def modelledRules : List String :=
   ["fixes.delete_unreachable_code", "fixes.remove_dead_ifs", "fixes.swap_if_else", "fixes.early_return", "fixes.early_continue",
+   "fixes.remove_redundant_else", "fixes.breakout_common_code_in_ifs (trailing code)",
    "fixes.replace_negated_numeric_comparison", "symbolic_math.simplify_boolean_expressions", "symbolic_math.simplify_constrained_range"]
 
 end C02
